@@ -36,7 +36,7 @@ PAIRS_THOROUGH = [('sse2', 'assert'), ('scalar', 'scalar-assert')]
 
 
 def doc_promises():
-    """(file, fn name, line of the fn) for every fn whose doc comment promises a glam_assert panic"""
+    """(file, fn name, line of the fn) for every fn whose doc comment promises a glam_assert panic (the sentence may wrap over several lines)"""
     out = []
     for root, dirs, files in os.walk(os.path.join(REPO, 'src')):
         for f in files:
@@ -45,19 +45,74 @@ def doc_promises():
             p = os.path.join(root, f)
             rel = os.path.relpath(p, REPO)
             lines = open(p, encoding='utf8', errors='replace').read().split('\n')
-            promise = False
+            doc = []
             for i, ln in enumerate(lines):
                 st = ln.strip()
                 if st.startswith('///'):
-                    if 'glam_assert' in st and ('panic' in st.lower()):
-                        promise = True
+                    doc.append(st[3:].strip())
                     continue
                 if st.startswith('#[') or st == '':
+                    if st == '':
+                        doc = []
                     continue
                 m = re.match(r'^(pub(?:\([a-z]+\))?\s+)?(const\s+)?(unsafe\s+)?fn\s+([A-Za-z0-9_]+)', st)
-                if m and promise:
-                    out.append((rel, m.group(4), i + 1))
-                promise = False
+                if m and doc:
+                    text = ' '.join(doc)
+                    if 'glam_assert' in text and 'panic' in text.lower():
+                        out.append((rel, m.group(4), i + 1))
+                doc = []
+    return out
+
+
+def cond_shape(t, atoms, memo=None):
+    """dimension-independent shape of an assertion condition: atoms -> their argument index, lane-wise repetitions collapsed"""
+    if memo is None:
+        memo = {}
+    r = memo.get(t.id)
+    if r is not None:
+        return r
+    if t.op == 'atom':
+        info = atoms.get(t)
+        r = 'A%s' % (info.arg if info is not None else '?')
+    elif t.op == 'c':
+        try:
+            r = '%.3g' % tm.f_of(t) if tm.csize(t) in (4, 8) else '#%d' % tm.cbits(t)
+        except Exception:
+            r = '#c'
+    elif t.op.split(':')[0] not in ('and', 'or', 'not', 'flt', 'fle', 'feq', 'fne', 'fabs', 'lt', 'le', 'eq', 'ne', 'ite', 'm8', 'm16', 'm32', 'm64'):
+        # an arithmetic sub-expression: only which operands it involves matters for the shape of the precondition
+        args_ = sorted(set(str(atoms[a].arg) for a in t.deps if a.op == 'atom' and a in atoms))
+        r = 'E[%s]' % ','.join(args_)
+    else:
+        kids = [cond_shape(a, atoms, memo) if isinstance(a, tm.T) else str(a) for a in t.args]
+        op = t.op.split(':')[0]
+        if op in ('and', 'or', 'fadd', 'fmul', 'fmin~', 'fmax~'):
+            flat = []
+            for k in kids:
+                if k.startswith(op + '('):
+                    flat.extend(_split_top(k[len(op) + 1:-1]))
+                else:
+                    flat.append(k)
+            kids = sorted(set(flat))
+            if len(kids) == 1 and op in ('and', 'or'):
+                r = kids[0]
+        if r is None:
+            r = '%s(%s)' % (op, ','.join(kids))
+    memo[t.id] = r
+    return r
+
+
+def _split_top(s):
+    out, depth, cur = [], 0, ''
+    for ch in s:
+        if ch == ',' and depth == 0:
+            out.append(cur)
+            cur = ''
+            continue
+        depth += {'(': 1, ')': -1}.get(ch, 0)
+        cur += ch
+    if cur:
+        out.append(cur)
     return out
 
 
@@ -85,6 +140,17 @@ def collect_ite_conds(t, out, seen):
     for a in t.args:
         if isinstance(a, tm.T):
             collect_ite_conds(a, out, seen)
+
+
+FAMILIES = [('fvec', ('Vec2', 'Vec3', 'Vec3A', 'Vec4', 'DVec2', 'DVec3', 'DVec4')), ('quat', ('Quat', 'DQuat')),
+            ('mat', ('Mat2', 'Mat3', 'Mat3A', 'Mat4', 'DMat2', 'DMat3', 'DMat4')), ('affine', ('Affine2', 'Affine3A', 'DAffine2', 'DAffine3'))]
+
+
+def family_of(tn):
+    for fam, names in FAMILIES:
+        if tn in names:
+            return fam
+    return None
 
 
 def check_internal(ctx, pair, name, it, r, gained):
@@ -160,6 +226,7 @@ def run(ctx):
         Ha, Hb = ctx.harness(base), ctx.harness(asrt)
         pair = '%s|%s' % (base, asrt)
         n = n_gain = n_doc_ok = 0
+        shapes = {}
         for name, it in api_roots(Fa):
             itb = Fb.items.get(name)
             if itb is None:
@@ -190,8 +257,17 @@ def run(ctx):
             documented = any(0 <= it['line'] - l <= 6 or 0 <= l - it['line'] <= 6 for l in lines_)
             if gained:
                 n_gain += 1
+            own = [p for p in gained if p.fn == it['d']]
             if gained and not documented:
                 check_internal(ctx, pair, name, it, rb, gained)
+                if own:
+                    ctx.violation('R-PRECOND', pair, name, {'file': it['file'], 'line': it['line'],
+                                  'problem': 'the function asserts a precondition (%d glam_assert site(s), first: %s) that its documentation does not state: valid documented use can panic with glam-assert' % (len(own), tm.show(own[0].cond, 0, 4)[:200])})
+            if own:
+                st_ = (it.get('self_ty') or '').lstrip('&').rsplit('::', 1)[-1]
+                fam = family_of(st_)
+                if fam:
+                    shapes.setdefault((fam, it.get('name'), Fa.body(it['key'])['argc']), []).append((name, it, tuple(sorted(cond_shape(p.cond, rb.atoms) for p in own))))
             if documented:
                 own_atoms = set(ra.atoms) | set(rb.atoms)
                 good = [p for p in gained if (p.cond.deps & set(rb.atoms))]
@@ -200,11 +276,29 @@ def run(ctx):
                     ctx.holds('R-PRECOND', pair, name)
                 else:
                     ctx.violation('R-PRECOND', pair, name, {'file': it['file'], 'line': it['line'], 'problem': 'rustdoc promises a glam_assert panic but the assert build adds no assertion over the operands of this function'})
+        # R-PRECOND-SIB: the same-named operation asserts the same precondition on every sibling type (shape of the condition, lanes collapsed)
+        n_sib = 0
+        for (fam, mname_, argc_), lst in sorted(shapes.items()):
+            if len(lst) < 3:
+                continue
+            from collections import Counter
+            cnt = Counter(sh for (_n, _i, sh) in lst)
+            major, mc = cnt.most_common(1)[0]
+            for (nm_, it_, sh) in lst:
+                n_sib += 1
+                simd_backed = (base != 'scalar') and it_['file'].split('/')[2:3] and it_['file'].split('/')[2] in ('sse2', 'neon', 'wasm32', 'coresimd')
+                # hand-scheduled SIMD implementations may legitimately test an equivalent quantity (1/det finite instead of det != 0)
+                if sh != major and mc >= max(2, len(lst) - 2) and mc > cnt[sh] and not simd_backed:
+                    ctx.violation('R-PRECOND-SIB', pair, nm_, {'file': it_['file'], 'line': it_['line'],
+                                  'problem': 'the asserted precondition differs from the one %d of %d sibling types assert for %s' % (mc, len(lst), mname_), 'here': list(sh)[:3], 'siblings': list(major)[:3]})
+                else:
+                    ctx.holds('R-PRECOND-SIB', pair, nm_)
+        ctx.floor('sibling assertion shapes compared (%s)' % pair, n_sib, 100)
         ctx.floor('functions compared with/without glam-assert (%s)' % pair, n, 13000)
         ctx.floor('documented preconditions found asserted (%s)' % pair, n_doc_ok, 200)
         ctx.count('functions_gaining_panic_sites:' + pair, n_gain)
         ctx.floor('internally established normalisation preconditions (%s)' % pair,
-                  sum(1 for o in ctx.obligations if o[0] == 'R-PRECOND-INT' and o[1] == pair), 16)
+                  sum(1 for o in ctx.obligations if o[0] == 'R-PRECOND-INT' and o[1] == pair), 12)
     # is_normalized: |len^2 - 1| <= tau, one tau per scalar width
     for cfg in [p[0] for p in pairs if p[0] in cfgs]:
         F = ctx.facts(cfg)
